@@ -128,6 +128,7 @@ class Model(object):
             if self.lookup(b) is not None:
                 good.append(('let', a, b))
         good.append(('letchar', NAMES[0], 'c'))
+        good.append(('letchar', NAMES[0], 'd'))
         for c in CHARS:
             for code in CODES:
                 if top.code(c) != code:
@@ -430,9 +431,11 @@ CONSTRUCTS = {
     'textbf': ('\\textbf{', '}'),
     'cell': ('\\begin{tabular}{ll}', '&q\\\\ r&s\\end{tabular}'),
     'item': ('\\begin{itemize}\\item ', '\\end{itemize}'),
+    # a box holding a closed inner box and a complete inline formula before its own content (only meaningful in math)
+    'boxmix': ('\\mbox{b \\textbf{c} $f$ ', '}'),
 }
 # inside math only these may nest (text constructs in math are not well-formed LaTeX)
-IN_MATH = ('brace', 'bgroup')
+IN_MATH = ('brace', 'bgroup', 'boxmix')
 
 
 def nestings(depth):
@@ -444,8 +447,10 @@ def nestings(depth):
         for chain in itertools.product(names, repeat=d):
             ok = True
             for i, c in enumerate(chain):
-                if 'math' in chain[:i] and c not in IN_MATH:
+                if 'math' in chain[:i] and 'boxmix' not in chain[:i] and c not in IN_MATH:
                     ok = False
+                if c == 'boxmix' and (i == 0 or chain[i - 1] != 'math'):
+                    ok = False      # only directly inside a formula
                 if 'cell' in chain[:i] and c in ('cell',):
                     pass
             if ok:
